@@ -498,7 +498,7 @@ func (c *Ctx) FIRSTERR(rule string, pkgs ...string) []report.Obligation {
 	var out []report.Obligation
 	n := 0
 	for _, fn := range c.P.Funcs {
-		if fn.Parent() == nil || fn.Blocks == nil {
+		if fn.Blocks == nil {
 			continue
 		}
 		id := c.P.FuncID(fn)
@@ -511,14 +511,32 @@ func (c *Ctx) FIRSTERR(rule string, pkgs ...string) []report.Obligation {
 		if !in {
 			continue
 		}
+		type cell struct {
+			addr ssa.Value
+			name string
+		}
+		var cells []cell
 		for _, fv := range fn.FreeVars {
-			pt, ok := fv.Type().(*types.Pointer)
-			if !ok || !isErrorType(pt.Elem()) {
-				continue
+			if pt, ok := fv.Type().(*types.Pointer); ok && isErrorType(pt.Elem()) {
+				cells = append(cells, cell{fv, fv.Name() + " of the enclosing function"})
 			}
+		}
+		if fn.Signature.Recv() != nil && len(fn.Params) > 0 {
+			for _, b := range fn.Blocks {
+				for _, in2 := range b.Instrs {
+					if fa, ok := in2.(*ssa.FieldAddr); ok && fa.X == ssa.Value(fn.Params[0]) {
+						if pt, ok := fa.Type().(*types.Pointer); ok && isErrorType(pt.Elem()) {
+							cells = append(cells, cell{fa, "field " + fa.X.Type().Underlying().(*types.Pointer).Elem().Underlying().(*types.Struct).Field(fa.Field).Name() + " of its receiver"})
+						}
+					}
+				}
+			}
+		}
+		for _, cl := range cells {
+			fv := cl.addr
 			for _, r := range *fv.Referrers() {
 				st, ok := r.(*ssa.Store)
-				if !ok || st.Addr != ssa.Value(fv) {
+				if !ok || st.Addr != fv {
 					continue
 				}
 				if prog.IsNilConst(st.Val) {
@@ -540,12 +558,12 @@ func (c *Ctx) FIRSTERR(rule string, pkgs ...string) []report.Obligation {
 						return false
 					}
 					ld, ok := other.(*ssa.UnOp)
-					if !ok || ld.Op != token.MUL || ld.X != ssa.Value(fv) {
+					if !ok || ld.Op != token.MUL || !sameAddr(ld.X, fv) {
 						return false
 					}
 					return (bo.Op == token.EQL && val) || (bo.Op == token.NEQ && !val)
 				})
-				key := id + " :: saves its error in " + fv.Name() + " of the enclosing function"
+				key := id + " :: saves its error in " + cl.name
 				out = append(out, verdict(guarded, rule, key, c.P.InstrPos(st),
 					"stored only while the variable is nil: the first failure is the one reported",
 					"the store is not under a test that the variable is still nil: each failing invocation replaces the saved error, so the failure reported is the last one met, not the first"))
@@ -1370,4 +1388,14 @@ func contains(l []string, s string) bool {
 		}
 	}
 	return false
+}
+
+// sameAddr: the same address value, or the same field of the same base.
+func sameAddr(a, b ssa.Value) bool {
+	if a == b {
+		return true
+	}
+	fa, ok1 := a.(*ssa.FieldAddr)
+	fb, ok2 := b.(*ssa.FieldAddr)
+	return ok1 && ok2 && fa.X == fb.X && fa.Field == fb.Field
 }
